@@ -20,6 +20,60 @@ pub struct Case {
     pub rec_overflow: usize,
     /// also drive solve_multiple (SLG), stopping after 20 answers
     pub multiple: bool,
+    /// non-empty: a text-level case over the fixed const / lifetime program of C28 (`pg` is then empty)
+    #[serde(default)]
+    pub rich_goals: Vec<String>,
+}
+
+/// goals with lifetime, const and int/float unknowns, hypotheses and solver-opened quantifiers over C28's fixed program:
+/// every solve must return within the budget and without a panic
+fn run_rich(goals: &[String]) -> CaseOut {
+    let mut out = CaseOut::default();
+    out.bump("fragment:rich-text");
+    let program = match lower_program(super::c28::RICH_PROGRAM) {
+        Ok(p) => p,
+        Err(e) => {
+            out.fail("lowering/program-rejected", format!("fixed rich program does not lower: {}", e));
+            return out;
+        }
+    };
+    chalk_integration::tls::set_current_program(&program, || {
+        for g in goals {
+            let peeled = match catch(|| parse_and_peel(&program, g)) {
+                Ok(Ok(p)) => p,
+                _ => {
+                    out.bump("rich_goal_does_not_lower");
+                    continue;
+                }
+            };
+            for sv in Sv::BOTH {
+                out.evals += 1;
+                let (run, work) = solve_fresh(&*program, sv.choice(), &peeled.goal, B1);
+                out.max(&format!("work:rich:{}", sv.name()), work);
+                let run = if matches!(run, Run::Budget) {
+                    out.bump("slow(needed the second budget)");
+                    solve_fresh(&*program, sv.choice(), &peeled.goal, B2).0
+                } else {
+                    run
+                };
+                match run {
+                    Run::Done(_) | Run::Overflow => {
+                        out.nontrivial.push(hash_of(&("rich", g, sv.name())));
+                        if out.sample.is_none() {
+                            out.sample = Some(json!({"program": "fixed rich program (harness/src/props/c28.rs)", "goal": g, "solver": sv.name(), "work_units": work}));
+                        }
+                    }
+                    // the fixed program has generative impls (`impl<T> Foo for V<T> where T: Foo`): with an unknown in the goal
+                    // the answer set is unbounded and a budget excess says nothing (as for the generated programs); goals
+                    // without any `exists` are closed and bounded by the goal's own size
+                    Run::Budget if g.contains("exists<") => out.bump("budget_exceeded_with_unknowns(not judged)"),
+                    Run::Budget => out.fail(format!("{}:runaway:rich", sv.name()), format!("[{}] no result within {} work units\n{}goal: {}", sv.name(), B2, super::c28::RICH_PROGRAM, g)),
+                    Run::Panic(m) => out.fail(format!("{}:panic:{}", sv.name(), m), format!("[{}] panic {}\n{}goal: {}", sv.name(), m, super::c28::RICH_PROGRAM, g)),
+                }
+            }
+        }
+    });
+    out
 }
 
 pub const B1: u64 = 300_000;
@@ -51,7 +105,7 @@ impl Property for C09 {
         true
     }
     fn rule(&self) -> String {
-        format!("case = generated program with growth knobs (growing where-clauses, polymorphic recursion, recursive struct fields under auto traits, unbounded answer sets) and 4 goals of all forms; every goal is solved with SLG and the recursive solver (cache on) at default limits and at one generated reduced configuration, and (half of the cases) enumerated with solve_multiple stopping after 20 answers. Oracle: the call returns without a panic other than the documented 'overflow depth reached' of the recursive solver, within a deterministic work budget counted by the cfg(chalk_verif) hook (SLG: root-loop iterations + table creations; recursive: solve_goal entries): {} units, re-run once with {} units — completing only in the re-run counts as 'slow', exceeding both is a violation (units also count goal- and type-node folds, so they track real cost; the largest honest solves of these sizes need < 1e5 units, measured and reported as max:work). A worker process dying on a signal is a violation with the in-flight case. Non-trivial = (program, goal, configuration) whose program has a growing or cyclic rule or coinductive traits; distinct by hash.", B1, B2)
+        format!("case = (88 %) generated program with growth knobs (growing where-clauses, polymorphic recursion, recursive struct fields under auto traits, unbounded answer sets) and 4 goals of all forms; every goal is solved with SLG and the recursive solver (cache on) at default limits and at one generated reduced configuration, and (half of the cases) enumerated with solve_multiple stopping after 20 answers. Oracle: the call returns without a panic other than the documented 'overflow depth reached' of the recursive solver, within a deterministic work budget counted by the cfg(chalk_verif) hook (SLG: root-loop iterations + table creations; recursive: solve_goal entries): {} units, re-run once with {} units — completing only in the re-run counts as 'slow', exceeding both is a violation (units also count goal- and type-node folds, so they track real cost; the largest honest solves of these sizes need < 1e5 units, measured and reported as max:work). In 12 % of the cases the goals are text-level goals (pool + generator: lifetime / const / int-float unknowns, hypotheses over lifetime-parameterised types, solver-opened quantifiers) over C28's fixed program, each solved by both solvers under the same budget. A worker process dying on a signal is a violation with the in-flight case. Non-trivial = (program, goal, configuration) whose program has a growing or cyclic rule or coinductive traits; distinct by hash.", B1, B2)
     }
     fn assumptions(&self) -> Vec<String> {
         vec![
@@ -63,20 +117,40 @@ impl Property for C09 {
         tier.pick(600, 6000)
     }
     fn decode(&self, t: &mut Tape, _tier: Tier) -> Case {
+        if t.chance(12) {
+            let rich_goals = (0..4).map(|_| if t.chance(35) { super::c28::RICH_GOALS[t.choose(super::c28::RICH_GOALS.len())].to_string() } else { super::c28::gen_rich_goal(t) }).collect();
+            return Case { pg: PG { program: Program::default(), goals: vec![] }, slg_max: 10, rec_max: 30, rec_overflow: 100, multiple: false, rich_goals };
+        }
         let mut cfg = if t.chance(60) { GenCfg::horn_auto() } else { GenCfg::horn() };
         cfg.fact_bias = 20;
         let pg = super::c01::decode_pg(t, &cfg, &GoalCfg::full(), 4);
-        Case { pg, slg_max: [10, 7, 5, 3][t.choose(4)], rec_max: [30, 12, 8, 4][t.choose(4)], rec_overflow: [100, 40][t.choose(2)], multiple: t.chance(50) }
+        Case { pg, slg_max: [10, 7, 5, 3][t.choose(4)], rec_max: [30, 12, 8, 4][t.choose(4)], rec_overflow: [100, 40][t.choose(2)], multiple: t.chance(50), rich_goals: vec![] }
     }
     fn describe(&self, c: &Case) -> Value {
+        if !c.rich_goals.is_empty() {
+            return json!({"program": super::c28::RICH_PROGRAM, "goals": c.rich_goals});
+        }
         let mut v = c.pg.describe();
         v["config"] = json!({"slg_max_size": c.slg_max, "rec_max_size": c.rec_max, "rec_overflow_depth": c.rec_overflow, "solve_multiple": c.multiple});
         v
     }
     fn shrink(&self, c: &Case) -> Vec<Case> {
+        if !c.rich_goals.is_empty() {
+            return (0..c.rich_goals.len())
+                .filter(|_| c.rich_goals.len() > 1)
+                .map(|i| {
+                    let mut q = c.clone();
+                    q.rich_goals.remove(i);
+                    q
+                })
+                .collect();
+        }
         c.pg.shrink().into_iter().map(|pg| Case { pg, ..c.clone() }).collect()
     }
     fn run(&self, case: &Case, _tier: Tier) -> CaseOut {
+        if !case.rich_goals.is_empty() {
+            return run_rich(&case.rich_goals);
+        }
         let mut out = CaseOut::default();
         let low = match lower_pg(&case.pg, &mut out) {
             Some(l) => l,
